@@ -260,6 +260,18 @@ def r5_cookie_pair(chk: Check) -> None:
         chk.violation("C06.R5", fn, "set_cookie ... delete_cookie",
                       "if the call raises (the WSGI application errors), the cookies stay in the reused client and ride on every following request: something other than the generated case is sent",
                       fn.loc(sets[0]), g.describe_path(w, fn.module.relpath))
+    # partial acquisition: set_cookie itself may raise for the 2nd..n-th cookie (werkzeug rejects non-string values);
+    # the cookies set before that must be removed as well, i.e. the acquiring loop sits INSIDE the try whose finally deletes
+    tries = [t for t in walk_body(fn.node) if isinstance(t, ast.Try) and t.finalbody and any(last_attr(c_) == "delete_cookie" for s_ in t.finalbody for c_ in calls(s_))]
+    construct = "a failure while setting the 2nd..n-th cookie also removes the ones already set"
+    if not tries:
+        chk.undecided("C06.R5", fn, construct, "try/finally with delete_cookie not found", fn.loc())
+    elif all(any(is_within(c_, s_) for t in tries for s_ in t.body) for c_ in sets):
+        chk.ok("C06.R5", fn, construct, "", fn.loc(sets[0]))
+    else:
+        chk.violation("C06.R5", fn, construct,
+                      "the loop that calls set_cookie runs BEFORE the try: if it raises for a later cookie (`cookies={\"sid\": \"x\", \"attempt\": 2}` - werkzeug rejects the int), the earlier cookies stay in the shared client and ride on the next call",
+                      fn.loc(sets[0]))
     send = P.func(f"{WSGI}:WSGITransport.send")
     ch = [c for c in body_calls(send) if last_attr(c) == "cookie_handler" and len(c.args) == 2]
     chk.expect(bool(ch) and any("**(case.cookies or {})" in c_ for c_ in canon(send, ch[0].args[1])), "C06.R5", send, "WSGI send wraps client.open in cookie_handler(case cookies + explicit cookies)", "cookies of the case are not sent through WSGI", send.loc())
